@@ -44,6 +44,28 @@ class C01(Prop):
                 cases.append({"kind": "valid-systematic", "stream": list(G.enc(*f)), "chunks": None})
         f = (0x40, 0x56, 0x45, 48, 5, G.rand_payload(rng, 991))
         cases.append({"kind": "too-long", "stream": list(G.enc(*f)), "chunks": None})
+        # length fields at and below the minimum (10): for every claimed length L in 7..12 and every known kind, bytes shaped so
+        # that whatever the reader takes for checksum and type byte at that length is consistent (byte L-2 = XOR of the bytes
+        # before it, last byte 0x16, and - where the checksum position coincides with the type position - the XOR is a known kind)
+        for k in kinds:
+            for L in (7, 8, 9, 10, 11, 12):
+                for _ in range(1 if tier == "quick" else 4):
+                    b = [0x68, L, 0, rng.choice(G.OUR_RCPT), rng.choice(G.KNOWN_SENDERS), rng.randrange(256), 0]
+                    # choose the version byte so that the XOR of the seven header bytes is the kind k
+                    x = 0
+                    for v in b:
+                        x ^= v
+                    b[6] = x ^ k
+                    body = [k] + [rng.randrange(256) for _ in range(4)]
+                    fb = (b + body)[:max(L, 7)]
+                    if L >= 9:
+                        x = 0
+                        for v in fb[:L - 2]:
+                            x ^= v
+                        fb[L - 2] = x
+                        fb[L - 1] = 0x16
+                    tail = list(G.enc(k, 0x56, 0x45, 48, 5, b"")) if rng.random() < 0.5 else []
+                    cases.append({"kind": "short-length:%d" % L, "stream": fb + tail, "chunks": chunking(rng, len(fb + tail)) if rng.random() < 0.5 else None})
         for _ in range(n):
             parts = []
             kindtag = []
